@@ -131,7 +131,7 @@ func genVal(r *rng.R, kind string, wild bool) string {
 			}
 		}
 		if w {
-			return fmt.Sprintf("%s:%d,%d", tok, rng.Pick(r, -1, 25, 99, 100, 24, 1<<40, -(1 << 40), r.Intn(30)), rng.Pick(r, -1, 60, 61, 99, 100, 1<<40, 1, r.Intn(70)))
+			return fmt.Sprintf("%s:%d,%d", tok, rng.Pick(r, -1, 25, 99, 100, 24, 1<<40, -(1<<40), r.Intn(30)), rng.Pick(r, -1, 60, 61, 99, 100, 1<<40, 1, r.Intn(70)))
 		}
 		if r.Chance(1, 8) {
 			return tok + ":24,0"
